@@ -11,7 +11,7 @@ import (
 )
 
 const header = `From Coq Require Import List NArith Bool.
-From GS Require Import Base Ltree RecLoader ReqExec.
+From GS Require Import Base Ltree RecLoader ReqExec C02Prefix.
 Import ListNotations.
 Open Scope N_scope.
 `
@@ -25,6 +25,8 @@ func newWriter(c *drv.Ctx) *cw.Writer {
 		{Name: "MISMATCH", Fn: "d_mismatch"},
 		{Name: "MON02", Fn: "d_mon02"},
 		{Name: "MON01", Fn: "d_mon01"},
+		{Name: "TRIEORD", Fn: "d_trie_ordered"}, // the plan guard of C02_holds_guarded holds of every harvested plan
+		{Name: "MON02G", Fn: "d_mon02_guarded"}, // inside the theorem's guards the implementation's outcome must equal the reference
 	})
 	w.ShardSize = 120 // the plans make the terms large: elaboration, not evaluation, is what costs
 	return w
